@@ -182,29 +182,33 @@ def run(ctx):
                  'failing to write one request does not end the dispatch: the error never reaches the function\'s result', [g.loc(t2)])
 
     # ------------------------------------------------------------------ Shutdown mapping
+    def on_error_of(g, i, is_source):
+        """is the statement at block i of body g executed exactly when a result satisfying is_source(term) is an error: on its Err edge, or inside a
+        closure handed to map_err / unwrap_or_else / or_else on it?"""
+        if g.kind == 'Closure':
+            for a_ in P.closure_sites().get(g.id, []):
+                pf = F.fns[a_[1]]
+                dst = pf.blocks[a_[2]]['stmts'][a_[3]]['pl']['l']
+                for bb, t in pf.calls():
+                    if callee_is(t, 'Result::map_err', 'Result::unwrap_or_else', 'Result::or_else') and any(x['k'] in ('move', 'copy') and x['pl']['l'] == dst for x in t['args'][1:]):
+                        if is_source(P.operand(pf, t['args'][0], at=bb)):
+                            return True
+        return bool(guarded_by_variant(F, P, g, i, is_source, ['Err', 'Break']))
+
     sh = list(F.all_aggregates('client::RpcError', 'Shutdown'))
     call = F.inherent('client::Channel', 'call')
     cb = F.with_descendants(call)
-    in_call = [(g, s) for g, i, j, s in sh if any(g.id == x.id for x in cb)]
-    ok = False
-    for g, s in in_call:
-        if g.kind == 'Closure':
-            for a in P.closure_sites().get(g.id, []):
-                pf = F.fns[a[1]]
-                dst = pf.blocks[a[2]]['stmts'][a[3]]['pl']['l']
-                for bb, t in pf.calls():
-                    if callee_is(t, 'Result::map_err') and any(x['k'] in ('move', 'copy') and x['pl']['l'] == dst for x in t['args'][1:]):
-                        rr = P.root(P.operand(pf, t['args'][0], at=bb))
-                        ok = bool(rr) and all(P.is_call(r, 'mpsc::Sender::send') and ('t', 'await') in p for r, p in rr)
-    R.ob('C09.shutdown', ('Channel::call', 'enqueue failure -> Shutdown'), ok, 'a call made after the dispatch ended fails fast with RpcError::Shutdown', [g.loc(s) for g, s in in_call] or [call.loc(call.d)])
+    in_call = [(g, i, s) for g, i, j, s in sh if any(g.id == x.id for x in cb)]
+    awaited_send = lambda x: bool(P.root(x)) and all(P.is_call(r, 'mpsc::Sender::send') and ('t', 'await') in p for r, p in P.root(x))
+    ok = bool(in_call) and all(on_error_of(g, i, awaited_send) for g, i, s in in_call)
+    R.ob('C09.shutdown', ('Channel::call', 'enqueue failure -> Shutdown'), ok, 'a call made after the dispatch ended fails fast with RpcError::Shutdown', [g.loc(s) for g, i, s in in_call] or [call.loc(call.d)])
     resp = [f for f in F.fns.values() if f.impl_of and f.impl_of.get('self_head') and path_matches(f.impl_of['self_head'], 'client::ResponseGuard') and not (f.impl_of.get('trait'))]
     okr = False
+    awaited = lambda x: any(('t', 'await') in p for _, p in P.root(x))
     for m in resp:
         for b in F.with_descendants(m):
             for i, j, s in b.aggregates('client::RpcError', 'Shutdown'):
-                # on the Err (RecvError) edge of the awaited oneshot
-                pred = lambda x: any(('t', 'await') in p for _, p in P.root(x))
-                okr = okr or bool(guarded_by_variant(F, P, b, i, pred, ['Err']))
+                okr = okr or on_error_of(b, i, awaited)
     R.ob('C09.shutdown', ('ResponseGuard::response', 'dropped dispatcher -> Shutdown'), okr, 'a call whose completion sender was dropped (dispatch gone) resolves with Shutdown, not a hang', [m.loc(m.d) for m in resp][:1])
 
     # ------------------------------------------------------------------ server: stop at first error, Drop aborts
